@@ -37,6 +37,7 @@ PHASES = {
         {"pkg": "e2", "test": "TestC18HostileInput", "phase": "C18/hostile-streams"},
         {"pkg": "e2", "test": "TestC18SplitPackets", "phase": "C18/split-packets"},
         {"pkg": "e2", "test": "TestC18WorkerStarvation", "phase": "C18/publish-worker-starvation"},
+        {"pkg": "e2", "test": "TestC18SlowConnect", "phase": "C18/slow-connect"},
         {"pkg": "e2", "test": "TestC18SilentReader", "phase": "C18/silent-reader"},
     ],
     "C17": [
